@@ -177,7 +177,10 @@ class FPV:
         try:
             return FPV(self.value / o.value, self.sort)
         except ZeroDivisionError:
-            if str(self.value * o.value)[0] == "-":
+            if self.value == 0 or math.isnan(self.value):
+                # 0/0 and NaN/0 are NaN, not an infinity
+                return FPV(float("nan"), self.sort)
+            if math.copysign(1, self.value) * math.copysign(1, o.value) < 0:
                 return FPV(float("-inf"), self.sort)
             return FPV(float("inf"), self.sort)
 
@@ -214,7 +217,9 @@ class FPV:
         try:
             return FPV(o.value / self.value, self.sort)
         except ZeroDivisionError:
-            if str(o.value * self.value)[0] == "-":
+            if o.value == 0 or math.isnan(o.value):
+                return FPV(float("nan"), self.sort)
+            if math.copysign(1, o.value) * math.copysign(1, self.value) < 0:
                 return FPV(float("-inf"), self.sort)
             return FPV(float("inf"), self.sort)
 
